@@ -480,6 +480,42 @@ fn one_shot(steps: &[Step]) -> String {
     all.join(", ")
 }
 
+/// The user edits a module and reloads it in the middle of a session: lines entered afterwards see the
+/// edited module, also where they mention one of its TYPES that the session had used before.
+fn module_reload(rng: &mut Rng) -> Scenario {
+    let n = rng.range(1, 90);
+    let mut h = crate::rng::Fnv::default();
+    h.u64(0x4e10);
+    let type_before = rng.chance(2, 3);
+    h.u64(type_before as u64);
+    let mut ops = vec![ClientOp::Line { session: 0, src: "%shapes.one".to_string() }];
+    let mut want = vec![n.to_string()];
+    if type_before {
+        ops.push(ClientOp::Line { session: 0, src: "hq = #'%shapes.t { ~ }, 7 hq".to_string() });
+        want.push("7".to_string());
+    }
+    ops.push(ClientOp::Reload { session: 0, path: vec!["shapes".to_string()], src: "'t = 'bin, [one: 0x01]".to_string() });
+    ops.push(ClientOp::Line { session: 0, src: "%shapes.one".to_string() });
+    want.push("0x01".to_string());
+    ops.push(ClientOp::Line { session: 0, src: "gq = #'%shapes.t { ~ }".to_string() });
+    want.push("Ok".to_string());
+    ops.push(ClientOp::Line { session: 0, src: "0x00 gq".to_string() });
+    want.push("0x00".to_string());
+    Scenario {
+        family: "c11-module-reload".into(),
+        ops,
+        modules: vec![(vec!["shapes".to_string()], format!("'t = 'int, [one: {n}]"))],
+        files: Default::default(),
+        timing: false,
+        io: false,
+        fixed_faults: Default::default(),
+        expect: serde_json::json!({ "reload": want }),
+        shape: h.0,
+        est_len: 120,
+        min_quantum: 0,
+    }
+}
+
 /// A client that enters the next line while the previous one is still running (quiver-web's glue
 /// allows it; run configuration of the client, `nowait>`): the running line has bindings before and
 /// after a point where it is parked (a spawn, an await), which is when the early line arrives.
@@ -548,6 +584,9 @@ impl Property for C11 {
         if rng.chance(1, 30) {
             return eager_line(rng);
         }
+        if rng.chance(1, 40) {
+            return module_reload(rng);
+        }
         let mut g = G { ints: vec![], bins: vec![], tuples: vec![], fns: vec![], gfns: vec![], procs: vec![], hfns: vec![], optf: vec![], clsf: vec![], unions: vec![], narrowed: vec![], dispf: vec![], n: 0, last_int: false, lit: 0x20 };
         let mut steps: Vec<Step> = vec![Step { src: super::c04::SPIN.to_string(), alias: false, fails: false, tailcall: false, narrows: None, needs_narrowed: None, dispatch_def: None, dispatch_call: None }, Step { src: WD.to_string(), alias: false, fails: false, tailcall: false, narrows: None, needs_narrowed: None, dispatch_def: None, dispatch_call: None }];
         let n = 4 + rng.usize(8);
@@ -607,7 +646,7 @@ impl Property for C11 {
         }
     }
     fn prepare(&self, scn: &mut Scenario, case_seed: u64) -> Vec<(Violation, RunSpec, RunResult)> {
-        if scn.expect.get("eager").is_some() {
+        if scn.expect.get("eager").is_some() || scn.expect.get("reload").is_some() {
             return Vec::new();
         }
         let mut e: Expect = serde_json::from_value(scn.expect.clone()).unwrap();
@@ -828,6 +867,25 @@ impl Property for C11 {
     }
     fn judge(&self, scn: &Scenario, _refdata: Option<&RefData>, r: &RunResult) -> Vec<Violation> {
         let mut v = Vec::new();
+        if let Some(want) = scn.expect.get("reload").and_then(|x| x.as_array()) {
+            // after an edit and a reload the session's lines see the edited module - its values AND its
+            // types - as a fresh session over the edited package would
+            let got: Vec<String> = r
+                .ops
+                .iter()
+                .zip(r.outs.iter())
+                .filter(|(op, _)| matches!(op, ClientOp::Line { session: 0, .. }))
+                .map(|(_, out)| match out {
+                    Out::Value(s) => s.clone(),
+                    other => format!("{:?}", other),
+                })
+                .collect();
+            let want: Vec<String> = want.iter().map(|x| x.as_str().unwrap_or("").to_string()).collect();
+            if got != want {
+                v.push(Violation::new("C11", "line-value", "stale-module-after-reload", format!("the session's lines yielded {:?}; with the module as edited before the reload they yield {:?}", got, want), r.steps));
+            }
+            return v;
+        }
         if let Some(legal) = scn.expect.get("eager").and_then(|x| x.as_array()) {
             // a line entered while the previous one still runs: the early line is either not started
             // (the session ends with the running line's value) or, if the running line had finished
